@@ -63,14 +63,17 @@ func (c *Collection) Snapshot(dst io.Writer) error {
 		return err
 	}
 
+	verifPoint("snapshot.recorderOpen", c, 0)
 	// Take a snapshot of the current state
 	defer os.Remove(recorder.Name())
 	if _, err := c.writeState(s2.NewWriter(dst)); err != nil {
 		return err
 	}
 
+	verifPoint("snapshot.beforeRecorderClose", c, 0)
 	// Close the recorder
 	c.recorderClose()
+	verifPoint("snapshot.beforeCopy", c, 0)
 	return recorder.Copy(dst)
 }
 
@@ -129,6 +132,7 @@ func (c *Collection) writeState(dst io.Writer) (int64, error) {
 
 	// Write each chunk
 	if err := writer.WriteRange(chunks, func(i int, w *iostream.Writer) error {
+		verifPoint("snapshot.beforeBlock", c, uint32(i))
 		return c.readChunk(commit.Chunk(i), func(lastCommit uint64, chunk commit.Chunk, fill bitmap.Bitmap) error {
 			offset := chunk.Min()
 
